@@ -467,7 +467,7 @@ func c10prop(r *simkit.Run) {
 			w.equalReached = true
 		}
 	}
-	nops := rapid.IntRange(10, 200).Draw(rt, "ops")
+	nops := rapid.IntRange(10, deep(200, 800)).Draw(rt, "ops")
 	for i := 0; i < nops; i++ {
 		switch rapid.SampledFrom([]string{"req", "req", "req", "req", "req+backoff", "req+backoff", "advance", "ratings", "ratings", "admin"}).Draw(rt, "op") {
 		case "req":
